@@ -12,7 +12,7 @@
    unconditional forms are stated at the end of this file. *)
 From Coq Require Import ZArith List Bool.
 From Coq Require Import Floats.SpecFloat.
-From PV Require Import Lib.PyBase Spec.TdFloat Gen.Constants Model.Duration Gen.DurationOps Model.DurationOps Proofs.C09Facts Proofs.C10Facts Proofs.C10History Proofs.FloatRoundTripC09 Proofs.FloatRoundTripC10 Proofs.C10Reflected.
+From PV Require Import Lib.PyBase Spec.TdFloat Gen.Constants Model.Duration Gen.DurationOps Model.DurationOps Proofs.C09Facts Proofs.C10Facts Proofs.C10History Proofs.FloatRoundTripC09 Proofs.FloatRoundTripC10 Proofs.C10Reflected Proofs.C10Subclass.
 Import ListNotations.
 Open Scope Z_scope.
 
@@ -558,3 +558,45 @@ Print Assumptions interval_negation_native_partial.
 Theorem interval_abs_native_length : forall delta a i, Z.abs delta < 2 ^ 33 * 10 ^ 6 -> interval_abs delta a = Ok i -> d_N i = Z.abs delta.
 Proof. exact interval_abs_native. Qed.
 Print Assumptions interval_abs_native_length.
+
+(* ---- an instance of a SUBCLASS that overrides the public accessors on the RIGHT of a Duration-like operand (Proofs/C10Subclass.v) ----
+   Interval overrides years / months / weeks / remaining_days / hours / minutes with the calendar residual of its end points (45 days from the
+   first of a month: 1 month, 2 weeks, 0 remaining days).  No operator reads a public accessor of an operand: the divisor of // / % divmod is
+   _timedelta_to_microseconds(other) on the PRIVATE record, + and - use total_seconds().  (The user subclass of the subclass-* streams is, in the
+   model, the Duration with the same constructor arguments: there is no class input.) *)
+Theorem subclass_right_operand_class_irrelevant : forall m l i, is_pendulum l = true -> arith_op m l (VIvl i) = arith_op m l (VDur i).
+Proof. exact arith_right_class_irrelevant. Qed.
+Print Assumptions subclass_right_operand_class_irrelevant.
+
+(* what Duration.__new__(seconds=(end - start).total_seconds()) stores for an Interval IS its native length (below 2^33 s), whatever its span *)
+Theorem interval_stores_native_length : forall delta a i, Z.abs delta < 2 ^ 33 * 10 ^ 6 -> interval_new_abs delta a = Ok i -> exact0 i.
+Proof. exact interval_new_abs_exact0. Qed.
+Print Assumptions interval_stores_native_length.
+
+Theorem interval_divisor_is_native_length : forall delta a i, Z.abs delta < 2 ^ 33 * 10 ^ 6 -> interval_new_abs delta a = Ok i ->
+  divisor_us (VIvl i) = Some (ivl_eff delta a).
+Proof. exact interval_divisor_us. Qed.
+Print Assumptions interval_divisor_is_native_length.
+
+(* // / % divmod BY an Interval (signed, inverted, absolute in either order; days, months or years long) give what timedelta's own operators
+   give on the native values end - start *)
+Theorem div_mod_by_interval_spec : forall m d delta a i r, (m = 5 \/ m = 6 \/ m = 7 \/ m = 8) -> exact0 d ->
+  Z.abs delta < 2 ^ 33 * 10 ^ 6 -> interval_new_abs delta a = Ok i ->
+  dur_method m d (VIvl i) = Ok r ->
+  ivl_eff delta a <> 0 /\ exists t, td_binop m (d_N d) (ivl_eff delta a) = Ok t /\ same_length r t.
+Proof. exact C10Subclass.div_mod_by_interval_spec. Qed.
+Print Assumptions div_mod_by_interval_spec.
+
+(* ... literally the outcome (value, remainder or exception) of dividing by the plain timedelta of the same length *)
+Theorem interval_divisor_kind_irrelevant : forall m d delta a i, (m = 5 \/ m = 6 \/ m = 7 \/ m = 8) ->
+  Z.abs delta < 2 ^ 33 * 10 ^ 6 -> interval_new_abs delta a = Ok i ->
+  dur_method m d (VIvl i) = dur_method m d (VTd (ivl_eff delta a)).
+Proof. exact interval_divisor_is_its_timedelta. Qed.
+Print Assumptions interval_divisor_kind_irrelevant.
+
+(* 100 days // Interval(45 days) = 2 (not 100 // 14 = 7); 100 days // absolute Interval(31 days, a whole month, given end first) = 3 (no zero divisor) *)
+Theorem month_spanning_divisor_example : exists d i45 i31,
+  dur_of_us (100 * 86400000000) = Ok d /\ interval_new_abs (45 * 86400000000) false = Ok i45 /\ interval_new_abs (- (31 * 86400000000)) true = Ok i31 /\
+  dur_method 5 d (VIvl i45) = Ok (RInt 2) /\ dur_method 5 d (VIvl i31) = Ok (RInt 3).
+Proof. exact C10Subclass.month_spanning_divisor_example. Qed.
+Print Assumptions month_spanning_divisor_example.
